@@ -290,6 +290,7 @@ class Result:
         self.viols = []          # (prop, key, replay, msg)
         self.dist = {}           # set name -> set of ints
         self.names = {}          # set name -> set of strings
+        self.dist_files = {}     # set name -> files of uint64 hashes (unioned lazily)
         self.inconclusive = []   # strings
         self.san = []            # (key, excerpt, logpath)
         self.procs = 0
@@ -375,15 +376,46 @@ def collect(outs, res):
                     res.viols.append((f[1], f[2], f[3], '\t'.join(f[4:])))
         for dp in glob.glob(out + '.dist.*'):
             name = dp.rsplit('.dist.', 1)[1]
-            data = open(dp, 'rb').read()
-            s = res.dist.setdefault(name, set())
-            s.update(struct.unpack('<%dQ' % (len(data) // 8), data[:len(data) // 8 * 8]))
+            res.dist_files.setdefault(name, []).append(dp)
         logs = glob.glob(out + '.san.*') + ([out + '.stdout'] if os.path.exists(out + '.stdout') else [])
         for key, exc in parse_san_logs(logs):
             res.san.append((key, exc, logs[0] if logs else ''))
         vlogs = glob.glob(out + '.vg.*')
         for key, exc in parse_vg_logs(vlogs):
             res.san.append((key, exc, vlogs[0]))
+
+
+class SizedSet:
+    """stands in for a huge set: only its size is known (counted by tools/distcount.c)"""
+    def __init__(self, n):
+        self.n = n
+
+    def __len__(self):
+        return self.n
+
+    def __iter__(self):
+        return iter(())
+
+
+def union_dist(res, bdir):
+    """union the per-shard hash files; small sets in Python, large ones with a compiled sort/unique helper"""
+    for name, files in res.dist_files.items():
+        total = sum(os.path.getsize(f) for f in files) // 8
+        if total <= 3000000:
+            s = set()
+            for f in files:
+                data = open(f, 'rb').read()
+                s.update(struct.unpack('<%dQ' % (len(data) // 8), data[:len(data) // 8 * 8]))
+            res.dist[name] = s
+        else:
+            exe = os.path.join(bdir, 'distcount')
+            if not os.path.exists(exe):
+                r = run(['gcc', '-O2', '-o', exe, os.path.join(VERIF, 'tools', 'distcount.c')])
+                if r.returncode != 0:
+                    raise Inconclusive('distcount build failed: ' + r.stdout[-500:])
+            r = run([exe] + files)
+            res.dist[name] = SizedSet(int(r.stdout.strip() or 0))
+    res.dist_files = {}
 
 
 def execute(prop, tier, seed, jobs, bdir, rdir):
@@ -414,6 +446,7 @@ def execute(prop, tier, seed, jobs, bdir, rdir):
             outs.append(out)
             res.inconclusive += notes
     collect(outs, res)
+    union_dist(res, bdir)
     return res
 
 
